@@ -87,10 +87,14 @@ func (s *HTTPMessageSignatures) init() error {
 
 	var kse *keystore.Entry
 
-	if len(s.Signer.KeyID) == 0 {
-		kse, err = ks.Entries()[0], nil
-	} else {
+	switch {
+	case len(s.Signer.KeyID) != 0:
 		kse, err = ks.GetKey(s.Signer.KeyID)
+	case len(ks.Entries()) == 0:
+		// e.g. an empty, or only partially written file, or a file containing certificates only
+		err = errorchain.NewWithMessage(keystore.ErrNoSuchKey, "key store does not contain any keys")
+	default:
+		kse = ks.Entries()[0]
 	}
 
 	if err != nil {
